@@ -30,12 +30,16 @@ def finding_key(op, impl, model):
     t = op.split(" ")
     k = "c11." + (t[1] if len(t) > 1 else "?")
     if impl.startswith(("panic", "oracle-fail", "err")):
-        k += ":" + impl.split(" ")[0][:60]
+        k += ":" + impl.split(" ")[0][:80]
     return k
 
 
 def is_property_failure(op, impl, model):
-    # `proc`: a differing Matched/NotFound answer or reused content is a disagreement with the model; it is a failure of
-    # the property itself only when the real code reuses content although a blob is missing / stat differs — the direct
-    # oracles of `e2e` report those as oracle-fail.
-    return impl.startswith(("oracle-fail", "panic"))
+    # e2e: the model's eq=1 is the proved consequence of a faithful parent (parent_eq_full); a real run that yields
+    # different trees for the parent-based and the forced backup of that very input is a failing input.  Oracle
+    # failures (unreadable / wrong parent-based snapshot, forced run not reading every file) and panics likewise.
+    # A differing `proc` answer or counter is a model/implementation disagreement (no-failing-input-found).
+    if impl.startswith(("oracle-fail", "panic")):
+        return True
+    t = op.split(" ")
+    return len(t) > 1 and t[1] == "e2e" and " eq=0 " in impl + " " and " eq=1 " in model + " "
